@@ -94,6 +94,67 @@ def stored_fields(ctx, only=None):
                       'field %s of the constructed value is %s, expected the unadjusted %s' % (f, got.get(f), want), ctx.where(body))
 
 
+def copies_are_complete(ctx, only=None):
+    """R-C17-3 for the other way a protocol object comes into being: a hand-written (or derived) `Clone` impl of a crate struct.  `clone`
+    builds the copy from the source's fields, each from its namesake; `clone_from`, when the impl has one, overwrites *every* field of
+    the destination from the source's namesake (a field it forgets keeps what the destination held before: a statement whose promises
+    belong to another statement, a witness with the old blinding factors).  `only`: type-name suffixes to restrict to."""
+    rep = ctx.rep
+    n = 0
+    for b in ctx.facts.fns():
+        if b.impl_trait != 'std::clone::Clone' or not b.impl_self:
+            continue
+        base = b.impl_self.split('<')[0]
+        adt = ctx.facts.adts.get(base)
+        if adt is None or len(adt['variants']) != 1 or adt.get('kind') not in (None, 'Struct', 'struct'):
+            continue
+        tname = base.split('::')[-1]
+        if only is not None and tname not in only:
+            continue
+        fields = [f['name'] for f in adt['variants'][0]['fields']]
+        if not fields:
+            continue
+        last = b.path.split('::')[-1]
+        if last == 'clone':
+            rt = ctx.eng.expand(ctx.eng.return_term(b))
+            aggs = [x for x in walk(rt) if x.tag == 'adt' and x[1].split('::')[-1] == tname]
+            if not aggs:
+                continue
+            got = dict(aggs[0][2])
+            for f in fields:
+                n += 1
+                t = got.get(f)
+                ok = t is not None and any(x.tag == 'field' and x[1] == f and any(y.tag == 'param' and y[2] == 1 for y in walk(x)) for x in walk(t))
+                rep.check(ok, 'R-C17-3', 'R-C17-3/%s::clone/%s' % (tname, f), 'the copy\'s field %s is the source\'s field %s' % (f, f),
+                          'the copy\'s field %s is %s, not the source\'s field %s' % (f, canon(t)[:120] if t is not None else None, f), ctx.where(b))
+        elif last == 'clone_from' and b.argc == 2:
+            covered = {}
+            for e in ctx.eng.bx(b).events():
+                if ('L', 1) not in e['roots']:
+                    continue
+                fp = e.get('fpath') or ()
+                name = e['decl'].split('::')[-1]
+                if e['kind'] == 'store' or name in ('clone_from', 'clone_from_slice', 'copy_from_slice', 'clone_into', 'extend_from_slice', 'extend', 'append'):
+                    try:
+                        t = ctx.eng.event_term(b, e)
+                    except Exception:
+                        continue
+                    srcf = {x[1] for x in walk(t) if x.tag == 'field' and any(y.tag == 'param' and y[2] == 2 for y in walk(x))}
+                    if not fp:
+                        if any(y.tag == 'param' and y[2] == 2 for y in walk(t)):
+                            for f in fields:
+                                covered.setdefault(f, set()).add(f)
+                    else:
+                        covered.setdefault(fp[0], set()).update(srcf)
+            for f in fields:
+                n += 1
+                src = covered.get(f)
+                rep.check(src is not None and f in src, 'R-C17-3', 'R-C17-3/%s::clone_from/%s' % (tname, f), 'clone_from overwrites field %s from the source\'s field %s' % (f, f),
+                          ('clone_from leaves field %s of the destination as it was: the result mixes the source with what the destination held before' % f) if src is None else
+                          ('clone_from fills field %s from the source\'s %s' % (f, sorted(src))), ctx.where(b))
+    return n
+
+
 def degree_table(ctx):
     """The conversion integer -> ExtensionDegree written as a lookup in a constant table instead of a `match`:
         value.checked_sub(MINIMUM).and_then(|i| TABLE.get(i)).copied().ok_or(..)
@@ -238,6 +299,7 @@ def run(ctx):
 
     # R-C17-3 stored values are the arguments
     stored_fields(ctx)
+    copies_are_complete(ctx)
 
     # no panic in constructors: shared enumeration with C16
     roots = [ctx.fn(s, 'R-C17-5', required=False) for s in list(TABLE) + ['CommitmentOpening::new', 'ExtendedMask::blindings']]
